@@ -3028,6 +3028,8 @@ func (p *printer) printExpr(expr js_ast.Expr, level js_ast.L, flags printExprFla
 				p.printExpr(e.TagOrNil, js_ast.LLowest, isCallTargetOrTemplateTag)
 				p.print(")")
 			} else {
+				// Prevent "x``" from becoming "y.z``" when "x" is an import that is printed as a property access
+				p.callTarget = e.TagOrNil.Data
 				p.printExpr(e.TagOrNil, js_ast.LPostfix, isCallTargetOrTemplateTag|(flags&isNewTarget))
 			}
 		} else {
